@@ -27,17 +27,6 @@ pub(super) mod constants {
 pub(crate) static VERIF_MAX_COUNT: std::sync::atomic::AtomicUsize =
     std::sync::atomic::AtomicUsize::new(0);
 
-fn max_count() -> usize {
-    #[cfg(rustic_core_verif)]
-    {
-        let n = VERIF_MAX_COUNT.load(std::sync::atomic::Ordering::Relaxed);
-        if n > 0 {
-            return n;
-        }
-    }
-    constants::MAX_COUNT
-}
-
 pub(crate) type SharedIndexer<BE> = Arc<RwLock<Indexer<BE>>>;
 
 /// The `Indexer` is responsible for indexing blobs.
@@ -186,7 +175,17 @@ impl<BE: DecryptWriteBackend> Indexer<BE> {
             warn!("couldn't get elapsed time from system time: {err:?}");
             Duration::ZERO
         });
-        if self.count >= max_count() || elapsed >= constants::MAX_AGE {
+        // verification hook: treat the index file as old enough once the lowered blob count is reached
+        #[cfg(rustic_core_verif)]
+        let elapsed = {
+            let n = VERIF_MAX_COUNT.load(std::sync::atomic::Ordering::Relaxed);
+            if n > 0 && self.count >= n {
+                constants::MAX_AGE
+            } else {
+                elapsed
+            }
+        };
+        if self.count >= constants::MAX_COUNT || elapsed >= constants::MAX_AGE {
             self.save()?;
             self.reset();
         }
